@@ -761,7 +761,13 @@ class Interp:
                 while isinstance(a, tuple) and a and a[0] in ('ref', 'refval', 'mref'):
                     a = self.deref(a, st)
                 vals.append(a if isinstance(a, (Sym, Iv, int, str)) else Sym(('val', repr(a)[:80])))
-            r = Sym(('call', name) + tuple(vals))
+            ops = {'Add::add': 'Add', 'Sub::sub': 'Sub', 'Mul::mul': 'Mul', 'Div::div': 'Div'}
+            if name in ops and len(vals) == 2 and all(isinstance(x, (Sym, Iv)) for x in vals):
+                r = self.binop(ops[name], vals[0], vals[1])          # the operator traits on (references to) floats
+            elif name == 'Neg::neg' and len(vals) == 1 and isinstance(vals[0], (Sym, Iv)):
+                r = iv_neg(vals[0]) if isinstance(vals[0], Iv) else Sym(('neg', vals[0]))
+            else:
+                r = Sym(('call', name) + tuple(vals))
             if not t['dest']['proj']:
                 self._kill_alias(st, t['dest']['local'])
             self.write_place(st, t['dest'], r)
